@@ -24,7 +24,7 @@ META = {
     "encoded": ["csr.bus.Decoder.__init__", "csr.bus.Decoder.add", "csr.bus.Decoder.align_to",
                 "csr.bus.Decoder.elaborate", "memory.MemoryMap.add_window", "memory.MemoryMap.window_patterns",
                 "memory.MemoryMap.windows", "memory.MemoryMap._compute_addr_range"],
-    "also": 'a refused add() (out-of-bounds address) left attached as an arbitrary bus; decoders elaborated once after k adds and extended afterwards; the ranges returned by add() are the oracle and windows() must agree; 12/16-bit address decoders; flat-vs-tree bounded miter',
+    "also": 'a refused add() (out-of-bounds address) left attached as an arbitrary bus; decoders elaborated once after k adds and extended afterwards; the ranges returned by add() are the oracle and windows() must agree; 12/16-bit address decoders; a single window filling the whole address space, a lone window smaller than it; flat-vs-tree bounded miter',
     "bounds": "addr width 3-7 (thorough 3-9), data width 8/16, 0-4 (thorough 0-6) subordinate windows of width "
               "1..aw-1, implicit / explicit aligned / align_to placement, decoder alignment 0-3 including alignment "
               "larger than a window (padded windows), named and anonymous, seeded add orders, one level of nesting",
@@ -98,6 +98,12 @@ def configs(tier, seed):
         except ValueError:
             continue
         out.append(cfg)
+    # a single window that fills the decoder's whole address space (no constant address bits left to compare),
+    # and a lone window smaller than the space (the decoder still has to compare the upper bits)
+    for aw, dw in ((3, 8), (5, 16), (1, 8)):
+        out.append({"aw": aw, "dw": dw, "align": 0, "subs": [{"aw": aw, "named": bool(aw % 2), "res": True}]})
+        if aw > 1:
+            out.append({"aw": aw, "dw": dw, "align": 0, "subs": [{"aw": aw - 2, "named": False, "res": True, "addr": 1 << (aw - 1)}]})
     return out + flat_configs(tier, seed)
 
 
